@@ -211,10 +211,16 @@ def r6(ck, rule="C01-R6"):
         inc_bbs = {bb for bb, s, k, sh in pre + incs}
         reset_bbs = {bb for bb, s, k, sh in resets}
         miss = []
-        if latches & under("Context", blocked=inc_bbs):
+
+        # from the dispatch on the marker on: a line that never gets there (skipped whole, before it is looked at) is not part of the
+        # hunk's content either, so the counts still describe what is stored
+        def after_dispatch(v, blocked):
+            return pathconst.reach_under(ph, lambda e: None, lambda e, adt: v if (adt or "").endswith("HunkLineType") else None, blocked=blocked,
+                                        per_iteration=True, start=[sws[0]["edges"][v][1]])
+        if latches & after_dispatch("Context", inc_bbs):
             miss.append("a context line can pass without being counted")
         for v in ("Add", "Remove"):
-            if latches & under(v, blocked=reset_bbs):
+            if latches & after_dispatch(v, reset_bbs):
                 miss.append("a line marked %s can pass without resetting suffix_context" % ("'+'" if v == "Add" else "'-'"))
         ck.require(not miss, rule, "every line updates the counters", "; ".join(miss), ph.where(), ok_detail="no iteration skips its update")
     # leading vs trailing: the two increments sit on opposite sides of one flag that changed lines set
